@@ -409,6 +409,21 @@ func (H) Execute(x *common.Exec, s any) {
 	}
 	em := [engines][]emitted{decodeAll(lists[0]), decodeAll(lists[1])}
 	x.NonTrivial = len(em[0]) >= 2
+	if sc.Cut > 0 {
+		x.Fault("client-cancels-mid-stream")
+	}
+	if sc.Window <= 1 {
+		x.Fault("slow-transport-window-" + fmt.Sprint(sc.Window))
+	}
+	if sc.Delay {
+		x.Fault("timestamp-paced-delays")
+	}
+	if sc.DisableSync {
+		x.Fault("sync-disabled")
+	}
+	if sc.Mode == "poll" && sc.Polls > 0 {
+		x.Fault("poll-regenerates-queue")
+	}
 	hh := fnv.New64a()
 	for _, e := range em[0] {
 		fmt.Fprint(hh, e.path, e.ts, e.val, e.sync)
